@@ -466,6 +466,9 @@ func (m *Machine) visitInstr(fr *frame, instr ssa.Instruction) continuation {
 			addr = fr.env[instr].(*Value)
 		}
 		*addr = zero(deref(instr.Type()))
+		if m.lockset != nil && m.locksetOn {
+			m.lockset.allocated(m, addr)
+		}
 
 	case *ssa.MakeSlice:
 		n := m.concreteInt(fr.get(instr.Len), "make len")
@@ -474,10 +477,21 @@ func (m *Machine) visitInstr(fr *frame, instr ssa.Instruction) continuation {
 			m.runtimePanic(fr, instr.Pos(), "makeslice: len out of range")
 		}
 		tElt := instr.Type().Underlying().(*types.Slice).Elem()
-		fr.env[instr] = m.makeSlice(tElt, n, c)
+		sl := m.makeSlice(tElt, n, c)
+		if m.lockset != nil && m.locksetOn {
+			m.lockset.allocatedObj(m, sl.a)
+			for i := range sl.a.v {
+				m.lockset.allocated(m, &sl.a.v[i])
+			}
+		}
+		fr.env[instr] = sl
 
 	case *ssa.MakeMap:
-		fr.env[instr] = &Map{ktype: instr.Type().Underlying().(*types.Map).Key()}
+		nm := &Map{ktype: instr.Type().Underlying().(*types.Map).Key()}
+		if m.lockset != nil && m.locksetOn {
+			m.lockset.allocatedObj(m, nm)
+		}
+		fr.env[instr] = nm
 
 	case *ssa.Range:
 		if m.lockset != nil && m.locksetOn {
@@ -585,7 +599,7 @@ func (m *Machine) store(fr *frame, pos token.Pos, p Value, v Value) {
 		if m.lockset != nil && m.locksetOn {
 			m.lockset.access(m, p, true, pos)
 		}
-		*p = copyVal(v)
+		assignInPlace(p, v)
 		return
 	case *SymRef:
 		// fork over the index
@@ -597,10 +611,33 @@ func (m *Machine) store(fr *frame, pos token.Pos, p Value, v Value) {
 		for _, f := range p.path {
 			cell = &(*cell).(Struct)[f]
 		}
-		*cell = copyVal(v)
+		assignInPlace(cell, v)
 		return
 	}
 	panic(fmt.Sprintf("store through %T", p))
+}
+
+// assignInPlace stores v into the cell, writing aggregates element by element into the
+// existing storage so that pointers to fields or elements taken earlier stay valid (as they
+// do in real memory).
+func assignInPlace(dst *Value, v Value) {
+	switch nv := v.(type) {
+	case Struct:
+		if old, ok := (*dst).(Struct); ok && len(old) == len(nv) {
+			for i := range nv {
+				assignInPlace(&old[i], nv[i])
+			}
+			return
+		}
+	case Array:
+		if old, ok := (*dst).(Array); ok && len(old) == len(nv) {
+			for i := range nv {
+				assignInPlace(&old[i], nv[i])
+			}
+			return
+		}
+	}
+	*dst = copyVal(v)
 }
 
 func pathGet(v Value, path []int) Value {
